@@ -94,7 +94,9 @@ Definition c13_step_ok (slot : N) (ct : content) (hist : list bstep) (st : bstep
   let shs := dissem_shreds upto in
   let repaired := existsb (fun s => match bs_op' s with BRepair _ _ _ => true | _ => false end) upto in
   let own := match own_slices upto with [] => false | _ => true end in
-  (count_b is_first_ev evs <=? (if repaired then 2 else 1))
+  (* the first shred of the slot is announced once for dissemination / the leader's own slices; the repair
+     path announces a first shred per (re)started repaired copy, which the correspondence pins down *)
+  (count_b is_first_ev (flat_map (fun s => match bs_op' s with BRepair _ _ _ => [] | _ => bs_events s end) upto) <=? 1)
   && (count_b is_invalid_ev evs <=? 1)
   && (repaired || own || (count_b is_block_ev evs <=? 1))
   && (* block events are justified *)
